@@ -53,6 +53,8 @@ def cases(tier, rng):
         cfg = cards.rand_config(rng, ptos=(1, 2) if schemes else ptos, schemes=schemes, sv=True)
         g = cards.rand_grid(rng)
         kind = cards.pick(rng, cfg["kinds"])
+        if rng.random() < 0.15:
+            kind = cards.pick(rng, ["XSHERANC", "XSHERACC", "XSCHORUSCC", "F1", "FW", "XSNUTEVNU"])  # cross sections are linear in the SFs
         heavy = cards.pick(rng, ["total", "total", "light", "charm", "bottom"])
         tc = cards.pick(rng, ["named", "real", "real", "Z=0", "Z=A"])
         if tc == "named":
@@ -86,7 +88,7 @@ def run_case(case):
     th = cards.theory(**case["theory"])
     g = case["grid"]
     name = f"{case['kind']}_{case['heavy']}"
-    pts = [dict(x=p["x"], Q2=p["Q2"]) for p in case["points"]]
+    pts = [dict(x=p["x"], Q2=p["Q2"], **({"y": 0.37} if case["kind"] in cards.XSS else {})) for p in case["points"]]
 
     def mkobs(target):
         o = dict(case["obs"])
